@@ -71,12 +71,17 @@ def tree_hash():
 def build_dir():
     d = os.path.join(VERIF, '.build', tree_hash())
     os.makedirs(d, exist_ok=True)
-    # drop stale build dirs (keep the 2 most recent others)
+    # drop stale build dirs: only ones not used for 3 hours (a concurrent run on another tree may be using its own), keep 4 others
     base = os.path.join(VERIF, '.build')
+    try:
+        os.utime(d, None)
+    except OSError:
+        pass
     others = [os.path.join(base, x) for x in os.listdir(base) if x != tree_hash() and len(x) == 16]
     others.sort(key=lambda p: os.path.getmtime(p), reverse=True)
-    for p in others[2:]:
-        shutil.rmtree(p, ignore_errors=True)
+    for p in others[4:]:
+        if time.time() - os.path.getmtime(p) > 3 * 3600:
+            shutil.rmtree(p, ignore_errors=True)
     return d
 
 
@@ -174,10 +179,14 @@ def _limit_as(gb):
     return f
 
 
-def run_harness(binpath, cases, tag, timeout, jobs=None, max_paths=2000000, witness=False, env=None, extra_args=()):
+def run_harness(binpath, cases, tag, timeout, jobs=None, max_paths=None, witness=False, env=None, extra_args=()):
     """Runs a symx harness over `cases` (list of strings).  Returns (summary dict, log path).  Raises
     EngineFault on timeout / non-zero exit / solver fault: an unfinished exploration is never success."""
     jobs = jobs or NCPU
+    if max_paths is None:
+        max_paths = 9000000 if os.environ.get('VERIF_TIER_ACTIVE') == 'thorough' else 2000000
+    if os.environ.get('VERIF_BUDGET_CAP'):
+        timeout = min(timeout, int(os.environ['VERIF_BUDGET_CAP']))
     cases_path = os.path.join(logs_dir(), tag + '.cases')
     log_path = os.path.join(logs_dir(), tag + '.jsonl')
     with open(cases_path, 'w') as f:
